@@ -297,6 +297,35 @@ def run(ctx):
         ctx.case(key=(fam, method, gname, tuple(sorted(req)), tuple(cot), placement, probe, order2, combo % 12))
     # plain runs have no segment events: validate them with nt = 1 (no segment expected) - their verdicts are still bound
     rej = ctx.validate_traces("Trace_IvpAdjoint.tla", "Trace_IvpAdjoint.cfg", traces, shards=12)
+
+    def m_seg(name, val):
+        def m(t):
+            for e in t["ev"]:
+                if e["a"] == "seg" and e.get(name) != val:
+                    e[name] = val
+                    return t
+        return m
+
+    def m_drop_seg(t):
+        ss = [j for j, e in enumerate(t["ev"]) if e["a"] == "seg"]
+        if ss:
+            del t["ev"][ss[-1]]                              # one interval is never integrated backwards
+            return t
+
+    def m_verdict(t):
+        if t["ev"][-1]["a"] == "ret" and t["ev"][-1]["verdicts"]:
+            t["ev"][-1]["verdicts"][-1][1] = False
+            return t
+
+    def m_eff(t):
+        for e in t["ev"]:
+            if e["a"] == "seg" and e["eff"]["rtol"] in ("f", "b"):
+                e["eff"]["rtol"] = "unset"                   # the backward integrator ran with default tolerances
+                return t
+    ctx.binding_selftest("Trace_IvpAdjoint.tla", "Trace_IvpAdjoint.cfg", traces, rej,
+                         [("not re-seeded", m_seg("y_is_stored", False)), ("cotangent not added", m_seg("cotangent_ok", False)),
+                          ("forward options used", m_seg("opts", "fwd")), ("segment missing", m_drop_seg), ("verdict false", m_verdict),
+                          ("tolerance not inherited", m_eff)])
     bytid = {t_["tid"]: t_ for t_ in traces}
     for tid_, matched, total in rej:
         t_ = bytid[tid_]
